@@ -482,8 +482,7 @@ def atomic_sites(body, field, op):
         if not t["a"]:
             continue
         a0 = body.term_operand(t["a"][0])
-        fp = mir.field_path(a0)
-        if fp is not None and fp.split(".")[-1] == field:
+        if a0[0] == "field" and a0[2] == field:
             out.append((bi, t, [body.term_operand(a) for a in t["a"]]))
     return out
 
@@ -524,7 +523,7 @@ def always_followed_by(body, from_block, via_blocks, cut_edges=()):
 
 def is_atomic_load(term, field):
     return (term[0] == "call" and term[1].startswith("std::sync::atomic::") and term[1].endswith("::load")
-            and term[2] and (mir.field_path(term[2][0]) or "").split(".")[-1] == field)
+            and term[2] and term[2][0][0] == "field" and term[2][0][2] == field)
 
 
 # ============================================================ K5 lock-held
@@ -543,10 +542,10 @@ def lock_calls(body, field=None):
                 m = lm[2:]
         if m is None or not ("Mutex" in path or "RwLock" in path):
             continue
-        fp = mir.field_path(body.term_operand(t["a"][0]))
-        if fp is None:
+        a0 = body.term_operand(t["a"][0])
+        if a0[0] != "field":
             continue
-        f = fp.split(".")[-1]
+        f = a0[2]
         if field is None or f == field:
             out.append((bi, t, f, m))
     return out
@@ -558,17 +557,32 @@ def guard_live_at(body, lock_bi, site_bi):
     t = body.blocks[lock_bi]["t"]
     if t.get("to") is None or "p" in t["dst"]:
         return False
-    start = (t["to"], frozenset([t["dst"]["l"]]))
-    seen = {start}
+    path = mir.callee_path(t["f"]) or ""
+    if path.startswith("tokio::sync::"):
+        # async lock: the call returns a future; the guard is the value of the `.await`
+        fut = body.term_call(t)
+        for bi, si, s in body.assigns():
+            rv = s["rv"]
+            if rv["r"] == "use" and rv["o"]["k"] in ("mv", "cp") and "p" in rv["o"]["p"] and "p" not in s["p"]:
+                tt = body.term_operand(rv["o"])
+                if tt[0] == "await" and mir.has(tt[1], lambda x: x == fut):
+                    return _guard_live(body, bi, si + 1, frozenset([s["p"]["l"]]), lock_bi, site_bi)
+        return False
+    return _guard_live(body, t["to"], 0, frozenset([t["dst"]["l"]]), lock_bi, site_bi)
+
+
+def _guard_live(body, start_bi, start_si, holders0, lock_bi, site_bi):
+    start = (start_bi, start_si, holders0)
+    seen = {(start_bi, holders0)}
     stack = [start]
     reached = False
     while stack:
-        bi, holders = stack.pop()
-        if bi == lock_bi:
+        bi, si0, holders = stack.pop()
+        if bi == lock_bi and si0 == 0:
             continue  # re-acquired on a later iteration: analysed from there
         blk = body.blocks[bi]
         h = set(holders)
-        for s in blk["s"]:
+        for s in blk["s"][si0:]:
             if s["k"] == "as":
                 rv = s["rv"]
                 src = None
@@ -580,19 +594,15 @@ def guard_live_at(body, lock_bi, site_bi):
                             src = o["p"]["l"]
                 if src is not None and src in h:
                     h.discard(src)
-                    if "p" not in s["p"]:
-                        h.add(s["p"]["l"])
-                    else:
-                        h.add(s["p"]["l"])
+                    h.add(s["p"]["l"])
                 elif "p" not in s["p"] and s["p"]["l"] in h:
-                    # overwritten
                     h.discard(s["p"]["l"])
         term = blk["t"]
         if bi == site_bi:
             reached = True
             if not h:
                 return False
-            # do not continue past the site for this query
+            continue
         k = term["k"]
         if k == "drop":
             if term["p"]["l"] in h and "p" not in term["p"]:
@@ -605,13 +615,11 @@ def guard_live_at(body, lock_bi, site_bi):
                     if path and (path.endswith("Option::<T>::unwrap") or path.endswith("Option::<T>::expect")
                                  or path.endswith("Result::<T, E>::unwrap")) and "p" not in term["dst"]:
                         h.add(term["dst"]["l"])
-        if bi == site_bi:
-            continue
         for tgt, _ in body.succ_edges(bi):
             st = (tgt, frozenset(h))
             if st not in seen:
                 seen.add(st)
-                stack.append(st)
+                stack.append((tgt, 0, frozenset(h)))
     return reached
 
 
